@@ -1,0 +1,28 @@
+//go:build verif
+
+// Contracts for deductive verification (comment-only; read by /verif/govc, never compiled into the product).
+
+package port
+
+// C05: static port ranges are taken exactly as written in the template: item i of the comma-separated expression is
+// "a" (the single port a) or "a-b" (ports a to b).
+//@ ghost pure func item(str string, i int) string = strings.trimmed(strings.splitElem(str, ",", i))
+//@ ghost pure func part(it string, k int) string = strings.splitElem(it, "-", k)
+//@ ghost pure func itemOk(it string) bool =
+//@     (strings.splitLen(it, "-") == 1 && strconv.puOk(part(it, 0))) ||
+//@     (strings.splitLen(it, "-") == 2 && strconv.puOk(part(it, 0)) && strconv.puOk(part(it, 1)))
+//@ ghost pure func itemBegin(it string) uint64 = strconv.pu(part(it, 0))
+//@ ghost pure func itemEnd(it string) uint64 = if strings.splitLen(it, "-") == 1 then strconv.pu(part(it, 0)) else strconv.pu(part(it, 1))
+
+//@ func RangesFromExpression(str string) (ranges Ranges, err error)
+//@   property C05
+//@   opt strings=uf
+//@   modifies nothing
+//@   ensures len(strings.trimmed(str)) == 0 ==> err == nil && len(ranges) == 0
+//@   ensures len(strings.trimmed(str)) != 0 && err == nil ==> len(ranges) == strings.splitLen(str, ",")
+//@   ensures len(strings.trimmed(str)) != 0 && err == nil ==> forall i int :: 0 <= i && i < len(ranges) ==>
+//@       itemOk(item(str, i)) && ranges[i].Begin == itemBegin(item(str, i)) && ranges[i].End == itemEnd(item(str, i))
+//@   ensures len(strings.trimmed(str)) != 0 && (forall i int :: 0 <= i && i < strings.splitLen(str, ",") ==> itemOk(item(str, i))) ==> err == nil
+//@   loop 1 invariant #i >= -1 && #i < len(split) && len(r) == #i + 1 && err == nil
+//@   loop 1 invariant forall j int :: 0 <= j && j <= #i ==>
+//@       itemOk(item(str, j)) && r[j].Begin == itemBegin(item(str, j)) && r[j].End == itemEnd(item(str, j))
